@@ -502,6 +502,13 @@ func (s *Server) handleUpdateService(
 
 	// Delete all deduplicated node checks.
 	for chk := range deletedNodeChecks {
+		// A check ID is unique per node. If the snapshot has a check with this
+		// ID on the node, the former node check is now a check of one of the
+		// service instances: it has just been registered as such above and
+		// deregistering the ID would delete it.
+		if nodeSnap, ok := snap.Nodes[chk.node]; ok && nodeSnap.hasCheck(chk.checkID) {
+			continue
+		}
 		nodeMeta := structs.NodeEnterpriseMetaInPartition(sn.PartitionOrDefault())
 		err := s.Backend.CatalogDeregister(&structs.DeregisterRequest{
 			Node:           chk.node,
